@@ -15,6 +15,40 @@ theorem map_ranges_set_pushIns (outs : List UtxoEntry) (v : Nat) (e : UtxoEntry)
     (outs.set v (pushIns e seq off)).map (·.ranges) = outs.map (·.ranges) :=
   map_ranges_of_base (map_base_set_pushIns outs v e seq off h)
 
+/-- a new inscription that is not unbound gets a sat: `calculate_sat` found one at its offset of
+the input ranges (else it hits `unreachable!()`) -/
+theorem uil_new_sat (cfg : Cfg) (height time : Nat) (R : Ranges) (fl : Flotsam) (sp : SatPoint) (opr : Bool)
+    (tgt : Target) (ls ls' : LocState)
+    (h : updateInscriptionLocation cfg height time (some R) fl sp opr tgt ls = .ok ls')
+    (hn : isNew fl = true) (hu : flUnbound fl = false) : ∃ s, (den R)[fl.offset]? = some s := by
+  rw [updateInscriptionLocation_eq] at h
+  split at h
+  · simp at h
+  · simp at h
+  · rename_i u q st ctx hstep
+    cases horig : fl.origin with
+    | old seq osp => simp [isNew, horig] at hn
+    | new cursed fee gallery hidden parents reins unb vind =>
+      have hunb : unb = false := by simpa [flUnbound, horig] using hu
+      subst hunb
+      unfold locStep at hstep
+      rw [horig] at hstep
+      cases cursed <;> simp only [locStepNew, Bool.false_eq_true, ↓reduceIte] at hstep
+      all_goals
+        split at hstep
+        · simp at hstep
+        · split at hstep
+          · simp at hstep
+          · simp at hstep
+          · rename_i sat hsat
+            unfold newSat at hsat
+            simp only [Bool.false_eq_true, ↓reduceIte] at hsat
+            split at hsat
+            · rename_i s hs
+              exact ⟨s, by rw [← insloc_den_eq]; exact (calculateSat_ok_iff R fl.offset s).1 hs⟩
+            · simp at hsat
+            · simp at hsat
+
 /-- **one `update_inscription_location` keeps every list on its sats** -/
 theorem uil_inv (cfg : Cfg) (height time : Nat) (R : Ranges) (fl : Flotsam) (sp : SatPoint) (opr : Bool)
     (tgt : Target) (ls ls' : LocState) (NR : Ranges)
@@ -26,10 +60,12 @@ theorem uil_inv (cfg : Cfg) (height time : Nat) (R : Ranges) (fl : Flotsam) (sp 
     LsInv NR ls' ∧ EntExt ls.st.entries ls'.st.entries ∧
       ls'.outs.map (·.ranges) = ls.outs.map (·.ranges) ∧ ls'.ctx.lostSats = ls.ctx.lostSats := by
   have spec := uil_spec cfg height time (some R) fl sp opr tgt ls ls' h
-  -- the entry table grows, and the entry of the sequence number being pushed is on the flotsam's sat
+  -- the entry table grows; the entry of the sequence number being pushed has no sat (unbound) or is
+  -- bound to the sat at the flotsam's offset of the input ranges
   have key : EntExt ls.st.entries ls'.st.entries ∧
       ∃ entry : InsEntry, ls'.st.entries[flSeq ls.st.entries.length fl]? = some entry ∧
-        ∀ s, entry.sat = some s → flUnbound fl = false ∧ (den R)[fl.offset]? = some s := by
+        ((flUnbound fl = true ∧ entry.sat = none) ∨
+         (flUnbound fl = false ∧ ∃ s, entry.sat = some s ∧ (den R)[fl.offset]? = some s)) := by
     cases spec.entry with
     | new hnew entry happ hseq hid hsat _ _ _ =>
       have hq : flSeq ls.st.entries.length fl = ls.st.entries.length := by
@@ -37,20 +73,20 @@ theorem uil_inv (cfg : Cfg) (height time : Nat) (R : Ranges) (fl : Flotsam) (sp 
         | old s o => simp [isNew, ho] at hnew
         | new => simp [flSeq, ho]
       refine ⟨by rw [happ]; exact EntExt.append _ _, entry, by rw [hq, happ]; simp, ?_⟩
-      intro s hs
-      rw [hsat] at hs
-      unfold flSat at hs
+      unfold flSat at hsat
       cases hu : flUnbound fl with
-      | true => simp [hu] at hs
+      | true => left; simp only [hu, if_true] at hsat; exact ⟨rfl, hsat⟩
       | false =>
-        simp only [hu, Bool.false_eq_true, if_false] at hs
-        exact ⟨rfl, by rw [← insloc_den_eq]; exact hs⟩
+        right
+        simp only [hu, Bool.false_eq_true, if_false] at hsat
+        obtain ⟨s, hs⟩ := uil_new_sat cfg height time R fl sp opr tgt ls ls' h hnew hu
+        exact ⟨rfl, s, by rw [hsat, insloc_den_eq]; exact hs, hs⟩
     | old seq osp ho hlen hother hsame =>
       have hq : flSeq ls.st.entries.length fl = seq := by simp [flSeq, ho]
       have hub : flUnbound fl = false := by simp [flUnbound, ho]
-      obtain ⟨e, he, hes⟩ := hfl seq osp ho
+      obtain ⟨e, s, he, hes, hed⟩ := hfl seq osp ho
       obtain ⟨e', he', hsat', _⟩ := hsame e he
-      refine ⟨?_, e', by rw [hq]; exact he', fun s hs => ⟨hub, hes s (hsat' ▸ hs)⟩⟩
+      refine ⟨?_, e', by rw [hq]; exact he', Or.inr ⟨hub, s, hsat'.trans hes, hed⟩⟩
       intro i x hx
       by_cases hi : i = seq
       · subst hi
@@ -69,13 +105,14 @@ theorem uil_inv (cfg : Cfg) (height time : Nat) (R : Ranges) (fl : Flotsam) (sp 
       · rw [hunb]
         intro ue hue
         obtain rfl := Option.some.inj hue
-        show InsSat _ [] ((ls.ctx.unboundEntry.getD UtxoEntry.empty).ins ++ [_])
-        refine InsSat.push ?_ _ _ ⟨entry, hent, fun s hs => ?_⟩
+        show InsNone _ ((ls.ctx.unboundEntry.getD UtxoEntry.empty).ins ++ [_])
+        refine InsNone.push ?_ _ _ ⟨entry, hent, ?_⟩
         · cases hun : ls.ctx.unboundEntry with
-          | none => exact InsSat.nil _ _
+          | none => exact InsNone.nil _
           | some u0 => exact (hinv.unb u0 hun).mono hext
-        · have := (hsatq s hs).1
-          rw [hu] at this; cases this
+        · rcases hsatq with ⟨_, h1⟩ | ⟨h1, _⟩
+          · exact h1
+          · rw [hu] at h1; cases h1
     | output hu vout e htgt hget houts hnull' hunb hcount =>
       refine ⟨?_, ?_, ?_⟩
       · rw [houts]
@@ -84,8 +121,10 @@ theorem uil_inv (cfg : Cfg) (height time : Nat) (R : Ranges) (fl : Flotsam) (sp 
         · exact (hinv.outs e' h1).mono hext
         · subst h1
           show InsSat _ e.ranges (e.ins ++ [_])
-          exact InsSat.push ((hinv.outs e (List.mem_of_getElem? hget)).mono hext) _ _
-            ⟨entry, hent, fun s hs => hout vout e htgt hget s (hsatq s hs).2⟩
+          rcases hsatq with ⟨h1, _⟩ | ⟨_, s, h1, h2⟩
+          · rw [hu] at h1; cases h1
+          · exact InsSat.push ((hinv.outs e (List.mem_of_getElem? hget)).mono hext) _ _
+              ⟨entry, s, hent, h1, hout vout e htgt hget s h2⟩
       · rw [hnull']; intro ne hne; exact (hinv.nul ne hne).mono hext
       · rw [hunb]; intro ue hue; exact (hinv.unb ue hue).mono hext
     | null hu htgt hspecial houts hnull' hunb hcount =>
@@ -95,10 +134,12 @@ theorem uil_inv (cfg : Cfg) (height time : Nat) (R : Ranges) (fl : Flotsam) (sp 
         intro ne hne
         obtain rfl := Option.some.inj hne
         show InsSat _ NR ((ls.ctx.nullEntry.getD UtxoEntry.empty).ins ++ [_])
-        refine InsSat.push ?_ _ _ ⟨entry, hent, fun s hs => hnull htgt s (hsatq s hs).2⟩
-        cases hun : ls.ctx.nullEntry with
-        | none => exact InsSat.nil _ _
-        | some n0 => exact (hinv.nul n0 hun).mono hext
+        rcases hsatq with ⟨h1, _⟩ | ⟨_, s, h1, h2⟩
+        · rw [hu] at h1; cases h1
+        · refine InsSat.push ?_ _ _ ⟨entry, s, hent, h1, hnull htgt s h2⟩
+          cases hun : ls.ctx.nullEntry with
+          | none => exact InsSat.nil _ _
+          | some n0 => exact (hinv.nul n0 hun).mono hext
       · rw [hunb]; intro ue hue; exact (hinv.unb ue hue).mono hext
   · exact map_ranges_of_base (uil_frame _ _ _ _ _ _ _ _ _ _ h).2.2.1
 
